@@ -460,6 +460,21 @@ def run_x_property(prop, tier, seed, specs, rule="", explanation="", assumptions
     handle_x_conditions(rep, conds, classify)
     for c in extra_conds:
         rep.add(c)
+    # functions of /repo actually executed: measured by profiling the replay of reachability witnesses on the real stack
+    measured = set()
+    byname = {sp.name: sp for sp in specs}
+    done = set()
+    for c in conds:
+        sp = byname.get(c.name)
+        if sp is None or c.witness is None or c.witness.get("args") is None or (sp.module, sp.func, tuple(sorted(sp.env.items()))[:3]) in done:
+            continue
+        if len(done) >= 6:
+            break
+        done.add((sp.module, sp.func, tuple(sorted(sp.env.items()))[:3]))
+        measured.update(functions_called(sp.module, sp.func, c.witness["args"], sp.env))
+    if measured:
+        rep.extra["functions_executed_in_witness_replays"] = sorted(measured)
+        rep.functions = sorted(set(rep.functions) | measured)
     # known findings: replay the recorded input; still failing -> KNOWN-FINDING line
     for k in load_known(prop):
         if k.get("status") != "known":
@@ -476,16 +491,41 @@ def run_x_property(prop, tier, seed, specs, rule="", explanation="", assumptions
     return rep
 
 
-def functions_called(module, func, args, env=None):
-    """names of the /repo functions executed when module.func(*args) runs on the real stack (profiling)"""
+def functions_called(module, func, args, env=None, timeout=120):
+    """names of the /repo functions executed when module.func(*args) runs on the REAL stack (measured by profiling)"""
+    pos, kw = args if args else ([], {})
+    e = dict(os.environ)
+    e.update({k: str(v) for k, v in (env or {}).items()})
+    e["PYTHONPATH"] = VERIF + os.pathsep + REPO
+    e["VERIF_SYMBOLIC"] = "0"
+    scratch = tempfile.mkdtemp(prefix="verif-prof-")
+    e["VERIF_SCRATCH"] = scratch
     code = (
-        "import sys, os\n"
-        "seen=set()\n"
+        "import json, sys, os, importlib\n"
+        "seen = set()\n"
+        "root = os.path.join(%r, 'gffutils') + os.sep\n"
         "def prof(frame, event, arg):\n"
-        "    if event=='call':\n"
-        "        fn=frame.f_code.co_filename\n"
-        "        if '/gffutils/' in fn and '/test/' not in fn:\n"
-        "            seen.add(os.path.basename(fn)[:-3]+'.'+frame.f_code.co_qualname)\n"
+        "    if event == 'call':\n"
+        "        fn = frame.f_code.co_filename\n"
+        "        if fn.startswith(root) and os.sep + 'test' + os.sep not in fn:\n"
+        "            seen.add('gffutils.' + os.path.basename(fn)[:-3] + '.' + frame.f_code.co_qualname)\n"
+        "m = importlib.import_module(%r)\n"
+        "pos, kw = json.loads(sys.stdin.read())\n"
         "sys.setprofile(prof)\n"
-    )
-    return code
+        "try:\n"
+        "    getattr(m, %r)(*pos, **kw)\n"
+        "except Exception:\n"
+        "    pass\n"
+        "sys.setprofile(None)\n"
+        "print('VERIF-FUNCS ' + json.dumps(sorted(seen)))\n"
+    ) % (REPO, module, func)
+    try:
+        p = subprocess.run([PY, "-c", code], input=json.dumps([pos, kw]), env=e, cwd=scratch, capture_output=True, text=True, timeout=timeout)
+        for line in p.stdout.splitlines():
+            if line.startswith("VERIF-FUNCS "):
+                return json.loads(line[len("VERIF-FUNCS "):])
+    except Exception:
+        pass
+    finally:
+        shutil.rmtree(scratch, ignore_errors=True)
+    return []
